@@ -191,6 +191,17 @@ fn start_watchdog(limit_s: u64) {
     let _ = t0;
 }
 
+/// Where the worker notes which run it is executing, for the driver to read if the process dies.
+static JOURNAL: std::sync::OnceLock<std::fs::File> = std::sync::OnceLock::new();
+
+fn journal(idx: u64, seed: u64, scenario: &str) {
+    use std::os::unix::fs::FileExt;
+    if let Some(f) = JOURNAL.get() {
+        let line = format!("{idx} {seed} {scenario}\n{:40}", "");
+        let _ = f.write_at(line.as_bytes(), 0);
+    }
+}
+
 fn watch_begin(idx: u64, seed: u64, t0: &Instant) {
     use std::sync::atomic::Ordering::SeqCst;
     WATCH[1].store(seed, SeqCst);
@@ -219,6 +230,11 @@ pub fn main(scenarios: &[Scenario]) -> ! {
     let known = load_known(&args.known);
     let total_w: u64 = mine.iter().map(|s| s.weight as u64).sum();
     let t0 = Instant::now();
+    if let Some(out) = &args.out {
+        if let Ok(f) = std::fs::File::create(format!("{}.cur", out.display())) {
+            let _ = JOURNAL.set(f);
+        }
+    }
     start_watchdog(60);
     let mut out = WorkerOut {
         property: args.prop.clone(),
@@ -256,6 +272,7 @@ pub fn main(scenarios: &[Scenario]) -> ! {
             (*c <= 4 && args.start == 0) || args.log_all
         };
         watch_begin(i, seed, &t0);
+        journal(i, seed, scen.name);
         let f = execute(&scen.run, Decider::generate(seed), want_sample);
         watch_end();
         out.runs += 1;
@@ -328,6 +345,7 @@ pub fn main(scenarios: &[Scenario]) -> ! {
                 log: dec.log.clone(),
                 minimised_from: original.len(),
                 minimise_attempts: attempts,
+                from_seed: false,
             };
             let _ = std::fs::create_dir_all(&args.replay_dir);
             let path = args
@@ -384,7 +402,14 @@ fn replay_main(scenarios: &[Scenario], path: &PathBuf, args: &Args) -> ! {
         eprintln!("no scenario {}/{} in this binary", rf.property, rf.scenario);
         std::process::exit(2)
     };
-    let f = execute(&scen.run, Decider::replay(rf.seed, rf.choices.clone()), true);
+    if rf.from_seed {
+        // the recorded run killed its process: regenerate it from the seed; dying again is the reproduction
+        start_watchdog(60);
+        watch_begin(0, rf.seed, &Instant::now());
+        eprintln!("replaying run seed={} of {}/{} from its seed; it is expected to end the process ({})", rf.seed, rf.property, rf.scenario, rf.violation.detail);
+    }
+    let decider = if rf.from_seed { Decider::generate(rf.seed) } else { Decider::replay(rf.seed, rf.choices.clone()) };
+    let f = execute(&scen.run, decider, true);
     if args.dump_log {
         for l in &f.decider.log {
             println!("  | {l}");
